@@ -17,6 +17,21 @@ func pick[T any](r *rand.Rand, xs ...T) T { return xs[r.Intn(len(xs))] }
 
 func genLedgerWalk(r *rand.Rand, n int) []Step {
 	var st []Step
+	if genIndex%5 == 1 {
+		// scripted corner: a join whose MaxAmountsIn lists one denom twice (oracle pool and constant-product pool)
+		st = append(st, Step{"a": "join", "u": "u2", "p": float64(3), "sz": pick(r, "s2", "s3"), "mode": "dup", "d": pick(r, "uusdc", "uusdt")}, Step{"a": "block", "dt": float64(5)},
+			Step{"a": "join", "u": "u3", "p": float64(1), "sz": "s2", "mode": "dup", "d": "uusdc"}, Step{"a": "block", "dt": float64(3700)},
+			Step{"a": "exit", "u": "u2", "p": float64(3), "frac": "all"}, Step{"a": "block", "dt": float64(5)})
+	}
+	if genIndex%5 == 4 {
+		// scripted corner: single-sided joins of a constant-product pool one after the other in ONE block (the second is priced
+		// after the first has changed the share price), then a pro-rata exit
+		pid := float64(1 + r.Intn(2))
+		st = append(st, Step{"a": "join", "u": "u2", "p": pid, "sz": pick(r, "s3", "big"), "mode": "single", "d": "uusdc"},
+			Step{"a": "join", "u": "u3", "p": pid, "sz": pick(r, "s2", "s3"), "mode": "single", "d": "uusdc"},
+			Step{"a": "join", "u": "u3", "p": pid, "sz": "s1", "mode": "single", "d": ""}, Step{"a": "block", "dt": float64(5)},
+			Step{"a": "exit", "u": "u3", "p": pid, "frac": "all"}, Step{"a": "block", "dt": float64(5)})
+	}
 	if genIndex%5 == 2 {
 		// scripted corner: two single-sided joins into the oracle pool WITHOUT accounted pool in ONE block (the second is priced
 		// after the first has changed the pool), then exits after the lock-up
@@ -74,12 +89,12 @@ func genPositionsWalk(r *rand.Rand, n int) []Step {
 			st = append(st, Step{"a": "levOpen", "u": u, "p": float64(1), "sz": pick(r, "s1", "s2", "1000000"), "lev": pick(r, "1.5", "2", "5", "9")})
 			nextLev++
 		case 2:
-			st = append(st, Step{"a": "levClose", "u": u, "id": float64(1 + r.Intn(nextLev)), "frac": pick(r, "one", "third", "half", "all")})
+			st = append(st, Step{"a": "levClose", "u": u, "id": float64(1 + r.Intn(nextLev)), "frac": pick(r, "one", "third", "half", "all", "allbut1", "allbut1")})
 		case 3, 4:
 			st = append(st, Step{"a": "perpOpen", "u": u, "p": float64(1), "side": pick(r, "long", "long", "short"), "coll": pick(r, "uusdc", "trading"), "sz": pick(r, "s1", "s2", "1000000"), "lev": pick(r, "2", "3", "5", "0")})
 			nextPerp++
 		case 5:
-			st = append(st, Step{"a": "perpClose", "u": u, "id": float64(1 + r.Intn(nextPerp)), "frac": pick(r, "third", "half", "all")})
+			st = append(st, Step{"a": "perpClose", "u": u, "id": float64(1 + r.Intn(nextPerp)), "frac": pick(r, "one", "third", "half", "all", "allbut1")})
 		case 6:
 			st = append(st, Step{"a": "feed", "asset": "ATOM", "mul": pick(r, "0.8", "0.9", "0.97", "1.03", "1.1", "1.25")})
 		case 7:
@@ -121,7 +136,13 @@ func genPositionsWalk(r *rand.Rand, n int) []Step {
 func genScenario(r *rand.Rand, i int) []Step {
 	blk := func(dt int) Step { return Step{"a": "block", "dt": float64(dt)} }
 	u, v := pick(r, "u2", "u3"), "u1"
-	switch i % 15 {
+	switch i % 16 {
+	case 15: // a leveraged position worth more than the pool's own USDC reserve whose stop-loss is reached at once: after the lock the
+		// sweep / a bot tries to close it, the single-sided exit would leave the pool short of USDC and the amm hook refuses it
+		return []Step{{"a": "levOpen", "u": u, "p": float64(1), "sz": pick(r, "250000000000", "300000000000"), "lev": pick(r, "5", "4.5"), "sl": "1000000000"},
+			{"a": "levOpen", "u": v, "p": float64(1), "sz": "s1", "lev": "2"}, blk(5), blk(pick(r, 3700, 3590)),
+			{"a": "levClosePositions", "u": "bot", "exact": true, "liq": []any{}, "sl": []any{[]any{u, float64(1)}, []any{v, float64(2)}}}, blk(5), blk(5),
+			{"a": "levClose", "u": v, "id": float64(2), "frac": "half"}, {"a": "levClose", "u": u, "id": float64(1), "frac": "third"}, blk(5)}
 	case 14: // governance updates the vault's parameters while loans carry pending interest
 		return []Step{{"a": "levOpen", "u": "u2", "p": float64(1), "sz": "s2", "lev": "5"}, {"a": "levOpen", "u": "u1", "p": float64(1), "sz": "s1", "lev": "3"},
 			{"a": "levOpen", "u": "u3", "p": float64(1), "sz": "s2", "lev": "2"}, blk(5), blk(86400 * 20), // (the sweep refreshes two of the three per block)
@@ -158,7 +179,11 @@ func genScenario(r *rand.Rand, i int) []Step {
 		return []Step{{"a": "levOpen", "u": "u2", "p": float64(1), "sz": "s1", "lev": "9"}, {"a": "levOpen", "u": "u3", "p": float64(1), "sz": "s1", "lev": "9"},
 			{"a": "levOpen", "u": "u1", "p": float64(1), "sz": "s1", "lev": "2"}, blk(5),
 			{"a": "feed", "asset": "ATOM", "mul": pick(r, "0.75", "0.7")},
-			{"a": "levClosePositions", "u": "bot", "exact": true, "liq": []any{[]any{"u2", float64(1)}, []any{"u3", float64(2)}, []any{"u1", float64(3)}}, "sl": []any{}}, blk(5),
+			// (the healthy position first, in the middle or last: what a later entry of the message does must not depend on it)
+			{"a": "levClosePositions", "u": "bot", "exact": true, "liq": pick(r,
+				[]any{[]any{"u2", float64(1)}, []any{"u3", float64(2)}, []any{"u1", float64(3)}},
+				[]any{[]any{"u1", float64(3)}, []any{"u2", float64(1)}, []any{"u3", float64(2)}},
+				[]any{[]any{"u2", float64(1)}, []any{"u1", float64(3)}, []any{"u3", float64(2)}}), "sl": []any{}}, blk(5),
 			{"a": "levClose", "u": "u1", "id": float64(3), "frac": "half"}, blk(5)}
 	case 10: // a stop-loss price that is reached at once: close attempts (bot and sweep) while the opening shares are still locked
 		return []Step{{"a": "levOpen", "u": u, "p": float64(1), "sz": "s1", "lev": "3", "sl": "1000000000"}, blk(5),
@@ -208,7 +233,8 @@ func genScenario(r *rand.Rand, i int) []Step {
 		return []Step{{"a": "levOpen", "u": "u2", "p": float64(1), "sz": "s1", "lev": "9"}, {"a": "levOpen", "u": "u3", "p": float64(1), "sz": "s1", "lev": "9"},
 			{"a": "levOpen", "u": "u1", "p": float64(1), "sz": "s1", "lev": "2"}, blk(5),
 			{"a": "feed", "asset": "ATOM", "mul": pick(r, "0.75", "0.7")}, blk(5), blk(5),
-			{"a": "levClose", "u": "u1", "id": float64(3), "frac": "half"}, blk(5)}
+			{"a": "levClose", "u": "u1", "id": float64(3), "frac": "half"}, blk(5),
+			{"a": "levClose", "u": "u1", "id": float64(3), "frac": "allbut1"}, blk(5), {"a": "levClose", "u": "u1", "id": float64(3), "frac": "all"}, blk(5)}
 	default: // interest settlement that leaves the position open (long-only pool), followed by amm-side operations
 		return []Step{{"a": "perpOpen", "u": u, "p": float64(1), "side": "long", "coll": pick(r, "uusdc", "trading"), "sz": "s1", "lev": "5"}, blk(5), blk(3600 * 24),
 			{"a": "perpClosePositions", "u": "bot", "liq": []any{[]any{u, float64(1)}}}, blk(5),
